@@ -195,8 +195,16 @@ func runRead(lines []string) {
 					return
 				}
 				dat, derr := io.ReadAll(ar.Data())
-				comp, cerr := ar.ComputedCRC()
-				parsed, perr := ar.ParsedCRC()
+				var comp, parsed uint32
+				var cerr, perr error
+				if len(op) > 2 && op[2] == "rev" {
+					// the other legal call order: stored CRC first, computed CRC second
+					parsed, perr = ar.ParsedCRC()
+					comp, cerr = ar.ComputedCRC()
+				} else {
+					comp, cerr = ar.ComputedCRC()
+					parsed, perr = ar.ParsedCRC()
+				}
 				cs, ps := fmt.Sprint(comp), fmt.Sprint(parsed)
 				if cerr != nil {
 					cs = "err:" + classify(cerr)
